@@ -194,6 +194,7 @@ def collect(prop, tier, fnd, cov, ck):
         seg = ck.stage_segments(tier, dump["crash"]["file"], "segments-crash", universe="3")
         segments_into(prop, seg, fnd, cov, ck, "crash")
         clone_crash_into(prop, tier, fnd, cov, ck)
+        segments_into(prop, ck.stage_bigcrash(tier), fnd, cov, ck, "crash")
         if tier != "quick":
             ck.asan_into(prop, ck.stage_asan(tier, dump["script"], segfiles=(dump["crash"]["file"],),
                                              name="asan-crash"), fnd, cov, "crash segments")
